@@ -160,7 +160,7 @@ func runNCCommon(env *Env, sc *NCSession) (*NCRun, bool) {
 	env.Context = nr.Summary
 	sc.BaseEmitted = nr.Tr.Emitted()
 	sc.BaseWrites = nr.Tr.NWrites()
-	for k, v := range nr.Tr.FaultFired {
+	for k, v := range nr.Tr.Faults() {
 		env.Fault(k, v)
 	}
 	if out.Hang {
@@ -221,7 +221,7 @@ func runC05N(env *Env, s Scenario) {
 		if nr.OpenRec.Class != "timeout" {
 			env.Fail("wrong-error-class", "open", "NETCONF Open failed with %q (class %s) when the server stalled; want a timeout error", nr.OpenRec.Err, nr.OpenRec.Class)
 		}
-		if nr.Tr.CloseCalls == 0 {
+		if nr.Tr.CloseCount() == 0 {
 			env.Fail("transport-left-open", "open", "Open failed but the transport was not closed")
 		}
 
@@ -288,7 +288,7 @@ func runC06N(env *Env, s Scenario) {
 	nr, ok := runNCCommon(env, sc)
 	env.Res.Shape = fmt.Sprintf("%s ops=%d eof=%d err=%d werr=%d seg=%s rd=%d", sc.Class, len(sc.Ops), sc.F.EOFAt, sc.F.ErrAt, sc.F.WriteErrAt, sc.Net.SegMode, sc.ReadDelayUS)
 	faulted := sc.F.EOFAt >= 0 || sc.F.ErrAt >= 0 || sc.F.WriteErrAt >= 0
-	fired := nr.Tr.FaultFired["eof"]+nr.Tr.FaultFired["readerr"]+nr.Tr.FaultFired["writeerr"] > 0
+	fired := nr.Tr.Faults()["eof"]+nr.Tr.Faults()["readerr"]+nr.Tr.Faults()["writeerr"] > 0
 	env.Res.Nontrivial = faulted && fired
 	if !ok {
 		return
@@ -394,6 +394,12 @@ func genC07N(seed uint64, run int, tier string) Scenario {
 			sc.TimeoutOpsUS = sc.ReadDelayUS * 800
 		}
 	}
+	if sc.Net.LatMax > 2*time.Duration(rdNS) {
+		sc.Net.LatMax = 2 * time.Duration(rdNS) / 1000 * 1000
+	}
+	if sc.TimeoutOpsUS < 5000 {
+		sc.TimeoutOpsUS = 5000
+	}
 	sc.F.CloseMode = pick(r, "eof", "eof", "err", "stuck")
 	sc.State = pick(r, c07NStates...)
 	rdUS := sc.ReadDelayUS
@@ -473,7 +479,7 @@ func runC07N(env *Env, s Scenario) {
 			env.Probe("second-close")
 		}
 	}
-	if nclose > 0 && nr.Tr.CloseCalls == 0 {
+	if nclose > 0 && nr.Tr.CloseCount() == 0 {
 		env.Fail("transport-not-closed", "", "Close returned but the transport's Close was never called")
 	}
 	if !sc.Uncontrol && sc.F.CloseMode != "stuck" {
